@@ -200,7 +200,7 @@ contract(M + ':Server.put', types={'app': 'Application', 'return': 'Bool'},
                   '        app.placement_expiry == old(app.placement_expiry))',
                   'clock_now() >= old(clock_now())',
                   # C03 lease clause, against the clock at the start of the call (the check reads it later)
-                  ('C03', 'implies(result and app.lease != 0, old(clock_now()) + app.lease < self.valid_until)')],
+                  'implies(result and app.lease != 0, old(clock_now()) + app.lease < self.valid_until)'],
          modifies=['clock', 'self.free_capacity', 'self.apps', 'app.server', 'app.placement_expiry',
                    ('Node.affinity_counters', 'lambda r: r == self or is_bucket(r)'),
                    ('Node.free_capacity', 'lambda r: is_bucket(r)')],
